@@ -108,19 +108,7 @@ def execute_threads(case):
             out.label('threads-undo-committed-during-pack')
         if during:
             out.label('threads-commit-returned-during-pack')
-        # a pack that cannot complete may fail (statement); the one known cause under concurrency: an undo committed
-        # while the pack runs points back to a revision the pack has already decided to drop
-        from ZODB.FileStorage.fspack import PackError
-        import traceback
-        for t in s.threads:
-            if not (t.name.startswith('packer') and t.exc is not None and 'undo-ok' in ev):
-                continue
-            # (the same cause shows as the transaction-length assertion of copyOne when the copier writes the
-            # data inline instead of the back-pointer)
-            inner = traceback.extract_tb(t.exc.__traceback__)[-1]
-            if isinstance(t.exc, PackError) or (isinstance(t.exc, AssertionError) and inner.name == 'copyOne'):
-                out.label('threads-pack-failed-because-of-concurrent-undo')
-                t.exc = None
+        threadprog.tolerate_pack_failed_by_undo(s, tr, out)
         if not threadprog.thread_problems(s, out, PROPERTY, allowed=(ConflictError,)):
             threadprog.history_oracle(tr, out, PROPERTY)
             if not out.failures:
